@@ -30,6 +30,9 @@ VOCAB = [
     ("try", "try:\n    a = a // i\nexcept ZeroDivisionError:\n    b = b + 1"),
     ("max", "b = max(b, a)"),
     ("cond-record", "if a > b:\n    b = a\n    print('new', b)"),
+    # the else clause of a nested loop belongs to the SURROUNDING loop as far as break / continue go
+    ("for-else-break", "for j in range(2):\n    a = a + j\nelse:\n    if a > 6:\n        break"),
+    ("while-else-continue", "while a < 3:\n    a = a + 1\nelse:\n    if i == 2:\n        continue"),
 ]
 LOOPS = ["for", "while", "none"]
 AFTERS = ["return a, b", "return b", "return 0"]
